@@ -121,7 +121,7 @@ def tick_choices(to):
     return [0, 1, max(to - 1, 0), to, to + 1, 10 * to, to // 2, 2 * to + 1, 999, 1000, 1001, 1000 + to // 2, 60000 + to]
 
 
-def random_poll(rng, n_events, seg=1500, first_id=1, timeouts=TIMEOUTS):
+def random_poll(rng, n_events, seg=1500, first_id=1, timeouts=TIMEOUTS, bursts=True):
     """Random history for the polling scanner: feeds, polls, time steps, resets."""
     out = []
     left = n_events
@@ -147,7 +147,7 @@ def random_poll(rng, n_events, seg=1500, first_id=1, timeouts=TIMEOUTS):
                 out.append({"op": "poll", "id": iid, "ch": rng.choice(chans)})
             elif r < 0.994:
                 out.append({"op": "tick", "id": iid, "dt": rng.choice(tick_choices(to))})
-            elif r < 0.995:
+            elif r < 0.995 and bursts:
                 out.extend(burst(rng, iid, tr, "poll"))
             else:
                 out.append({"op": "reset", "id": iid})
